@@ -14,7 +14,11 @@ use re::render::stats::{Stats, Throughput};
 use re::render::{Context, Framebuf, Screen, Target};
 use re::util::buf::{AsMutSlice2, Buf2, MutSlice2};
 
+/// row width: 2 pixels in the quick tier, 3 in the thorough tier
+#[cfg(feature = "deep")]
 pub const W: usize = 3;
+#[cfg(not(feature = "deep"))]
+pub const W: usize = 2;
 
 /// an arbitrary scanline on row y: n fragments from column x0, reciprocal
 /// depth z0 + i*dz, attribute a0 + i*da
@@ -88,7 +92,7 @@ fn c06_two_spans_commute() {
         if ia && ib { overlap = true; }
     }
     kani::cover!(overlap, "spans overlap");
-    kani::cover!(a.n == 3 && b.n == 3 && a.dz > 0.0 && b.dz < 0.0, "interpenetrating full spans");
+    kani::cover!(a.n == W && b.n == W && a.dz > 0.0 && b.dz < 0.0, "interpenetrating full spans");
 }
 
 /// D1b: after drawing two spans every pixel holds the larger reciprocal depth
@@ -198,7 +202,8 @@ fn c07_framebuf_flags() {
     }
     assert!(io.o == wrote);
     assert!(calls.get() == passed); // shader invoked exactly once per fragment that passes the test
-    kani::cover!(n == 3 && wrote == 1 && passed == 2, "one discarded, one failed the test");
+    kani::cover!(n == W && passed == W && wrote == W - 1 && ctx.color_write, "all pass the test, one discarded");
+    kani::cover!(n == W && passed == W - 1, "one fails the test");
     kani::cover!(!ctx.color_write && ctx.depth_write && passed > 0, "depth-only pass");
     kani::cover!(inverted && s.n > 0, "inverted range");
 }
@@ -243,7 +248,7 @@ fn c07_colorbuf_flags() {
         }
     }
     assert!(io.o == wrote);
-    kani::cover!(ox == 1 && oy == 1 && s.n == 3 && wrote == 2, "offset view, one discard");
+    kani::cover!(ox == 1 && oy == 1 && s.n == W && wrote == W - 1, "offset view, one discard");
 }
 
 /// M4: Stats += Stats adds every counter component-wise; Throughput likewise.
